@@ -71,6 +71,8 @@ class Run:
         from .model import AnalysisError
         for rule, n in self.floors.items():
             got = self.rule_counts.get(rule, 0)
+            if any(o["rule"] == rule and not o["ok"] for o in self.obligations):
+                continue   # the rule already reports a violation; dependent instances were not generated
             if got < n:
                 raise AnalysisError(
                     f"rule {rule} matched {got} instance(s), fewer than the {n} confirmed on the reference tree: "
